@@ -4,7 +4,7 @@ import sys
 import time
 import traceback
 
-from . import common, facts, interp, wire, rules_wire, rules_header, rules_hash, golden, hashrec
+from . import common, facts, interp, wire, rules_wire, rules_header, rules_hash, golden, hashrec, rules_align, gen_units
 from .common import Report, Facts, ExportError
 
 ASSUME_COMMON = [
@@ -334,7 +334,44 @@ def check_C06(ctx):
             "(readers equal writers) this is the static content of 'files of this format version stay readable'. Byte-for-byte comparison with an independent encoder over values is not decided.")
 
 
-CHECKS = {"C04": check_C04, "C06": check_C06, "C10": check_C10, "C01": check_C01, "C02": check_C02, "C15": check_C15, "C05": check_C05}
+def units_universe(ctx):
+    tier = ctx.tier
+    name = "wunits" if tier == "quick" else "wunitst"
+    key = ("units", tier)
+    if key not in ctx._u:
+        p = ctx.facts.witness(name, gen=lambda d: gen_units.generate(d, tier))
+        ctx._u[key] = facts.load_universe([ctx.facts.epserde("default"), p, ctx.facts.witness("wcorpus", os.path.join(common.VERIF, "witness", "wcorpus"))])
+    return ctx._u[key], name
+
+
+def check_C07(ctx):
+    rep = ctx.rep
+    rep.rule("W4", "every raw block Z(T,_) is immediately preceded by the alignment point of T's own unit, on the writer and both readers")
+    rep.rule("M1", "folded <T as MaxSizeOf>::max_size_of() of every closed zero-copy type of the universe is a power of two, >= align_of::<T>() (rustc layout), >= the unit of every component")
+    rep.rule("M2", "derived max_size_of returns the maximum over align_of::<Self>() and the unit of every field")
+    rep.rule("ALIGN", "all four align implementations move by pad_align_to(position of self, unit(T)); writers emit only zero bytes; a path that emits nothing knows the padding is zero")
+    rep.rule("POS", "position-tracking wrappers advance by exactly the bytes moved, after success; Serialize::serialize returns the position after the last write")
+    wire_props(ctx, ("full", "eps"), ("W4",), 56)
+    try:
+        u, cname = units_universe(ctx)
+    except ExportError as ex:
+        msg = "\n".join(l for l in str(ex).splitlines() if l.startswith("error"))[:500]
+        rep.add("M1", "universe", "the universe of closed zero-copy types no longer compiles (some type stopped being zero-copy?): " + msg)
+        u, cname = ctx.universe("default", CORPUS), None
+    if cname:
+        n = rules_align.rule_M1(u, rep, cname)
+        rep.floor("closed zero-copy types folded", n, 140)
+    nd = rules_align.rule_M2(u, rep)
+    rep.floor("derived zero-copy units checked", nd, 15)
+    rules_align.rule_align_impls(u, rep)
+    rules_align.rule_pos_accounting(u, rep)
+    return ("Alignment units folded by constant propagation over rustc's layouts for a universe of closed zero-copy types; the four align implementations "
+            "and the position-tracking wrappers checked by abstract interpretation (same padding expression, zero bytes, exact position accounting); "
+            "adjacency of alignment points and raw blocks on all three sides of every impl. The arithmetic of pad_align_to itself (minimality for every "
+            "offset/unit pair) is NOT decided.")
+
+
+CHECKS = {"C07": check_C07, "C04": check_C04, "C06": check_C06, "C10": check_C10, "C01": check_C01, "C02": check_C02, "C15": check_C15, "C05": check_C05}
 
 
 def main(argv):
